@@ -105,9 +105,10 @@ def gen_cases(chk):
         r2 = vlib.run_tlc("MC_Sheet", "MC_Sheet_replay_d2.cfg", workers=6, coverage=False, timeout=3000)
         if not r2.ok:
             raise vlib.ToolError("replay generation (depth 2) failed")
-        for rp in r2.replays:
+        d2 = r2.replays if len(r2.replays) <= 20000 else rng.sample(r2.replays, 20000)
+        for rp in d2:
             cases += with_levels(rp, rng, both=False)
-    nsim = 400 if quick else 20000
+    nsim = 400 if quick else 5000
     rs = vlib.run_tlc("MC_Sheet", "MC_Sheet_sim.cfg", workers=1, coverage=False, simulate=f"num={nsim}",
                       extra=["-depth", "30", "-seed", str(chk.seed)], timeout=3000)
     if rs.rc != 0 or rs.violation or not rs.replays:
@@ -120,7 +121,7 @@ def gen_cases(chk):
         seen.add(key)
         cases += with_levels(rp, rng, both=False)
     n2 = len(cases)
-    cases += limit_cases(rng, 300 if quick else 10000)
+    cases += limit_cases(rng, 300 if quick else 3000)
     chk.extra["cases"] = {"tlc_paths": n1 if quick else "depth1+depth2", "tlc_simulated_histories": len(seen),
                           "grid_limit_histories": len(cases) - n2}
     for i, c in enumerate(cases):
